@@ -369,6 +369,15 @@ def _cls_ctl_all(ic, tier):
                 return [y]
             fr.append((f"Case(a,{{0:[],1:y{tlabel(t)}(reset5)<={x[0]},-2:[],default:b}})", f7))
 
+            def f8(m, env, x=x, t=t):
+                # keys written as explicitly signed constants (non-negative and negative) next to plain ones: every item takes the
+                # signedness of the test, a negative key can never match an unsigned test
+                y = m.new_target(t, reset=2)
+                m.comb += Case(env["b"], {Constant(2, (3, True)): y.eq(x[1](env)), Constant(1, (2, True)): y.eq(env["a"]), Constant(-1, (2, True)): y.eq(7),
+                                          3: y.eq(1), "default": y.eq(env["c"])})
+                return [y]
+            fr.append((f"Case(b,{{C(2,3s):y{tlabel(t)}(reset2)<={x[0]},C(1,2s):a,C(-1,2s):7,3:1,default:c}})", f8))
+
             def f6(m, env, x=x, t=t):
                 y = m.new_target(t)
                 m.comb += y.eq(Array([x[1](env), env["b"], Constant(5), env["a"]])[env["c"]])
